@@ -234,6 +234,37 @@ def identityStep {σ : Type} (ui : UI σ) (dec : String → Option Bytes) (s : I
     | .fatal => .halt [] (.error .protocol)
     | .unknown => .next s unsupportedS
 
+/-! ## vocabulary for the properties -/
+
+/-- the commands `ClientUI.handle` knows -/
+def uiCommands : List String := ["msg", "request-secret", "request-public", "confirm"]
+
+/-- the commands the recipient / identity state machine knows; every other
+    stanza type is an unknown command for that machine -/
+def recipientCommands : List String := ["recipient-stanza", "labels", "error", "done"] ++ uiCommands
+def identityCommands : List String := ["file-key", "error", "done"] ++ uiCommands
+
+/-- the messages the client reads before the first `done` -/
+def beforeDone (msgs : List Stanza) : List Stanza := msgs.takeWhile (fun m => m.type != "done")
+
+/-- the age stanza a `recipient-stanza <index> <type> <args…>` message carries -/
+def asWrapped (m : Stanza) : Option Stanza :=
+  if m.type = "recipient-stanza" then
+    match m.args with
+    | _ :: ty :: as => some ⟨ty, as, m.body⟩
+    | _ => none
+  else none
+
+/-- what a successful wrap returns: the stanzas carried by the `recipient-stanza`
+    messages before `done`, in order, and the arguments of the `labels` message -/
+def wrappedOf (msgs : List Stanza) : List Stanza := (beforeDone msgs).filterMap asWrapped
+def labelsOf (msgs : List Stanza) : Option (List String) :=
+  ((beforeDone msgs).find? (fun m => m.type == "labels")).map (·.args)
+
+/-- what a successful unwrap returns: the body of the `file-key` message before `done` -/
+def fileKeyOf (msgs : List Stanza) : Option Bytes :=
+  ((beforeDone msgs).find? (fun m => m.type == "file-key")).map (·.body)
+
 /-! ## the two clients -/
 
 /-- what a call of the client exchanged and returned -/
